@@ -196,6 +196,7 @@ def run(prog: Program, chk: Check) -> None:
     chk.call(k8, prog, chk)
     chk.call(k9, prog, chk)
     chk.call(k10, prog, chk)
+    chk.call(k11, prog, chk)
 
 
 def k4(prog: Program, chk: Check) -> None:
@@ -680,6 +681,64 @@ def k9(prog: Program, chk: Check) -> None:
                     "largest singular value)", x)
     if n < 1:
         raise AnalysisError("K9: no comparison of singular values with a threshold found")
+
+
+def k11(prog: Program, chk: Check) -> None:
+    chk.rule("K11", "the imaginary-time path keeps its whole memory: GibbsTempo builds the back end "
+             "without a memory length of its own (max_mps_length absent, None or the number of "
+             "steps itself) and never sets kmax afterwards - the Matsubara correlations are "
+             "periodic, C(tau) = C(beta - tau), so the longest-range coefficients are as large as "
+             "the shortest-range ones and a memory cut (valid in real time) drops part of the "
+             "reorganisation shift: the state then depends on the number of steps", floor=2)
+    u = prog.unit("tempo:GibbsTempo._prepare_backend")
+    du = DefUse(u, CFG(u.node, exc_edges=False))
+    chk.saw(u, du.cfg)
+    calls = [c for c in walk_local(u.node) if isinstance(c, ast.Call) and call_name(c) == "TIBaseBackend"]
+    if len(calls) != 1:
+        raise AnalysisError("K11: GibbsTempo._prepare_backend no longer builds one TIBaseBackend")
+    from oqv.astutil import bind_args
+    from oqv.dataflow import origin_text
+    be = prog.cls("backends.tempo_backend:TIBaseBackend")
+    b = bind_args(calls[0], [p for p in be.methods["__init__"].params if p != "self"])
+    nid = du.node_of(calls[0])
+    ml, ms = b.get("max_mps_length"), b.get("max_step")
+    ok = ml is None or (isinstance(ml, ast.Constant) and ml.value is None) or \
+        (ms is not None and origin_text(du, nid, ml) == origin_text(du, nid, ms))
+    chk.add("K11", u, f"TIBaseBackend(max_step={norm(ms) if ms is not None else '<default>'}, "
+            f"max_mps_length={norm(ml) if ml is not None else '<default>'})", ok,
+            "memory length = number of steps" if ok else
+            f"the memory of the imaginary-time path is cut at `{origin_text(du, nid, ml)}`", calls[0])
+    ci = prog.cls("tempo:GibbsTempo")
+    setters = [st for mu in ci.methods.values() for st in walk_local(mu.node)
+               if isinstance(st, (ast.Assign, ast.AugAssign))
+               for t in (st.targets if isinstance(st, ast.Assign) else [st.target])
+               if isinstance(t, ast.Attribute) and t.attr in ("kmax", "_kmax")]
+    chk.add("K11", prog.unit("tempo:GibbsTempo.__init__"), "GibbsTempo never sets the back end's kmax",
+            not setters, "" if not setters else f"memory length changed afterwards: {norm(setters[0])[:50]}")
+    init = be.methods["__init__"]
+    st_ = [st for st in walk_local(init.node) if isinstance(st, ast.Assign)
+           and any(dotted(t) == "self._kmax" for t in st.targets)]
+    if not st_:
+        raise AnalysisError("K11: TIBaseBackend.__init__ no longer sets self._kmax")
+    from oqv.astutil import branch_context
+    ok = False
+    if len(st_) == 1 and isinstance(st_[0].value, ast.IfExp):
+        v = st_[0].value
+        ok = norm(v.body) == "max_step" and norm(v.orelse) == "max_mps_length" \
+            and norm(v.test) in ("max_mps_length is None", "max_mps_length == None")
+    elif len(st_) == 2:
+        # the same choice as an if statement (the model splits conditional expressions)
+        by_val = {norm(x.value): x for x in st_}
+        if set(by_val) == {"max_step", "max_mps_length"}:
+            ctx = branch_context(init.node, by_val["max_step"])
+            ok = bool(ctx) and norm(ctx[-1][0]) in ("max_mps_length is None", "max_mps_length == None") \
+                and ctx[-1][1] is True
+            if not ok and ctx:
+                ok = norm(ctx[-1][0]) in ("max_mps_length is not None", "max_mps_length != None") \
+                    and ctx[-1][1] is False
+    chk.add("K11", init, f"self._kmax <- {sorted(norm(x.value)[:30] for x in st_)}", ok,
+            "defaults to the number of steps" if ok else
+            "the default memory length of the back end is no longer the number of steps", st_[0])
 
 
 SPECTRAL_POSITIVE = """
